@@ -82,7 +82,7 @@ struct R : Runner {
 template <unsigned N, typename BT> static void reg(bool sm) { g_runners.emplace_back(new R<N, BT>(sm)); }
 
 int main(int argc, char** argv) {
-	for (int i = 1; i + 1 < argc; ++i) if (std::string(argv[i]) == "--group") g_group = argv[i + 1];
+	g_group = parse_group(argc, argv, g_group);
 #ifndef NO_SMALL
 	reg<4, uint8_t>(true); reg<5, uint8_t>(true); reg<6, uint8_t>(true); reg<7, uint8_t>(true); reg<8, uint8_t>(true);
 	reg<8, uint16_t>(true); reg<7, uint16_t>(true); reg<8, uint32_t>(true);
